@@ -62,15 +62,16 @@ def one_of(sr):
 
 def carrier_data(sr) -> List[Any]:
     if sr == "Bool": return [False, True]
-    if sr == "Real": return [0.0, 0.0, 1.0, 0.5, 2.5, "inf"]
-    return ["-inf", "-inf", 0.0, -1.0, 2.5, "inf"]
+    # 1e30 / 3e38: finite values whose product / sum leaves the range of float32 (torch then gives inf)
+    if sr == "Real": return [0.0, 0.0, 1.0, 0.5, 2.5, "inf", 1e30]
+    return ["-inf", "-inf", 0.0, -1.0, 2.5, "inf", 3e38]
 
 
 def carrier_defaults(sr) -> List[Any]:
     """{zero, one, inf, a finite value}"""
     if sr == "Bool": return [False, True]
-    if sr == "Real": return [0.0, 1.0, "inf", 2.5]
-    return ["-inf", 0.0, "inf", -1.5]
+    if sr == "Real": return [0.0, 1.0, "inf", 2.5, 1e30]
+    return ["-inf", 0.0, "inf", -1.5, 3e38]
 
 
 class CaseTimeout(Exception):
@@ -200,7 +201,7 @@ def unit_cases(unit, seed, tier):
     for si, sr in enumerate(SEMIRINGS):
         ds = carrier_defaults(sr)
         combos = [(a, b) for a in ds for b in ds]
-        # two default combinations per (pair, semiring), walking through all 16 (4 for Bool) as the pair index varies;
+        # two default combinations per (pair, semiring), walking through all 25 (4 for Bool) as the pair index varies;
         # the first one always has at least one zero default (the sparse representation is then kept)
         picks = [combos[(k + si) % len(combos)], combos[(k * 7 + 3 * si + 5) % len(combos)]]
         if tier == "thorough":
